@@ -199,6 +199,8 @@ def run(ctx):
     # a refused sibling (executed, then rejected: real dpos.Status.Update(best) must clear its residue) before a valid block
     rf = D.refused_family(ctx.rng, "refused")
     cases += rf if not quick else ctx.rng.sample(rf, 16)
+    # chains crossing hardfork boundaries (fork heights configured low)
+    cases += D.fork_crossing_family(ctx.rng, "forks")
     # the block-generation deadline at every position of the candidate list
     cases += D.deadline_family(ctx.rng, "dl-fixed", ver=3, public=True)
     for i in range(1 if quick else 40):
@@ -264,6 +266,11 @@ def run(ctx):
             hist["blocks"] += 1
             hist["txs"] += len(blk["txs"])
             hist["included"] += len(pb.get("included") or [])
+            for hc in pb.get("header_changed") or []:
+                fails.append(("a connected block's header changed afterwards on the producing node (its version / recomputed hash now differ from every other node's): " + hc[:300],
+                              {"case": D.strip(c), "while_producing_block": pb.get("no"), "change": hc}))
+            hist.setdefault("block_versions", {})
+            hist["block_versions"][str(pb.get("version"))] = hist["block_versions"].get(str(pb.get("version")), 0) + 1
             for s in pb.get("skipped") or []:
                 hist["skipped"] += 1
                 if s.get("leak"):
